@@ -221,7 +221,7 @@ class AsyncRunnerTemplate(BaseRunner, ABC):
             error = e
             partial_state = getattr(e, "_partial_state", None)
             if isinstance(e, ExecutionError):
-                error = e.__cause__ or e
+                error = e.__cause__ if e.__cause__ is not None else e
                 partial_state = e.partial_state
 
             await self._emit_run_end_async(
